@@ -157,6 +157,32 @@ pub fn c10(ctx: &mut Ctx) {
         }
         sp.run(ctx, &sp.name, lim, |s, l| sdes_case(s, l));
     }
+    // PRIV items whose length byte and prefix-length byte are both near 255 (raw strings: the builder cannot make the
+    // ill-formed ones): length 248..=255 x prefix length 244..=255, the item alone / followed by a CNAME
+    if !child {
+        ctx.bound("long PRIV items", "raw SDES packets with one PRIV item of length 248..=255 x prefix-length byte 244..=255, alone and followed by another item");
+        ctx.run_space("priv-length-x-prefix-length-near-255", 8 * 12 * 2, |idx, l| {
+            let len = 248 + (idx % 8) as usize;
+            let plen = 244 + ((idx / 8) % 12) as usize;
+            let mut body: Vec<u8> = vec![0x01, 0x02, 0x03, 0x04, 8, len as u8];
+            if len > 0 {
+                body.push(plen as u8);
+                body.extend((1..len).map(|i| b'a' + (i % 26) as u8));
+            }
+            if idx / 96 == 1 {
+                body.extend_from_slice(&[1, 2, b'c', b'n']);
+            }
+            body.push(0);
+            while body.len() % 4 != 0 {
+                body.push(0);
+            }
+            let words = body.len() / 4;
+            let mut s = vec![0x81, 202, (words >> 8) as u8, words as u8];
+            s.extend_from_slice(&body);
+            let residue = l.residue();
+            sdes_case(crate::engine::place::place(&mut s, residue), l);
+        });
+    }
     // single chunks with more than 65 535 bytes of items (where a 16-bit sum of item lengths wraps)
     {
         let sp = bytes::giants_runs_space();
